@@ -106,10 +106,19 @@ def judge(lines, info, traj, run: Run, recs, ended):
                 encl_end = ended[info[p]["id"]] if encl_end is None else min(encl_end, ended[info[p]["id"]])
             p = info[p]["parent"]
         nested_in_interrupt = fc.in_interrupt_body(info, li["idx"])
+        unused_forces = sorted(forces)
+        prev_start = None
         for s in starts:
             lo = max(reg, 0)
+            if kind == "Alarm" and prev_start is not None and not nested_in_interrupt:
+                # a re-armed Alarm needs the condition to hold again after the previous run completed (or a new force)
+                done = [c for c in completes if prev_start <= c <= s]
+                lo = max(lo, min(done)) if done else lo
+            prev_start = s
             ever_true = any(cond[lo:s + 1])
-            forced = any(f <= s for f in forces)
+            forced = bool(unused_forces) and unused_forces[0] <= s
+            if forced and not ever_true:
+                unused_forces.pop(0)                  # one force justifies one run
             if not ever_true and not forced:
                 probs.append((f"C04:{kind}-body-started-without-condition",
                               f"{kind} {li['id']} registered at tick {reg} started its body at tick {s}; X trajectory {traj} was never > 1 in between and no force was accepted"))
